@@ -45,15 +45,22 @@ pub fn run_prop(ctx: &Ctx, sink: &mut Sink) {
     let n = if ctx.thorough { 6000 } else { 400 };
     for i in 0..n {
         let flag = *rng.pick(&["P", "P", "P", "L", "H"]);
-        // under -H/-L only links that do not resolve to directories (a removal through a followed link
-        // would have to be compared by inode, not by name)
+        // under -H/-L only links that resolve to files, to nothing or to an empty directory (a removal
+        // through a followed link would have to be compared by inode, not by name)
         let sc = build_scene(ctx, &mut rng, simple_names(), flag == "P" && i % 3 != 0);
         if flag != "P" {
             let _ = std::os::unix::fs::symlink("../plain", sc.dir.join("r0/zlf"));
             let _ = std::os::unix::fs::symlink("nowhere", sc.dir.join("r0/zld"));
             let _ = std::os::unix::fs::symlink("../plain", sc.dir.join("r1/zlf"));
+            // links that resolve to an (empty) directory: followed under -L, as a starting point
+            // under -H; -delete has to unlink the link itself
+            let _ = std::fs::create_dir(sc.dir.join("emptyd"));
+            let _ = std::os::unix::fs::symlink("../emptyd", sc.dir.join("r0/zle"));
+            let _ = std::os::unix::fs::symlink("../emptyd", sc.dir.join("r1/zle"));
+            let _ = std::os::unix::fs::symlink("emptyd", sc.dir.join("le"));
         }
-        let cands: Vec<&str> = vec!["r0", "r1", "r0/", "./r1", "plain", "missing", "r1//"];
+        let mut cands: Vec<&str> = vec!["r0", "r1", "r0/", "./r1", "plain", "missing", "r1//"];
+        if flag != "P" { cands.push("le"); cands.push("r0"); }
         let mut roots: Vec<(Vec<u8>, String)> = vec![];
         let mut used_r0 = false;
         let mut used_r1 = false;
